@@ -930,13 +930,21 @@ pub fn check_auth_one_own_rule() {
     run(&sc, false);
     let _ = soundness(&sc, DECLARED_1);
 }
+/// converse of `check_auth_one_default_rule` (library function directly)
 #[kani::proof]
 #[kani::unwind(98)]
-pub fn check_auth_one_rule_accepts() {
-    let sc = scenario_shaped(&shape(0, ANY), [CREATE_CTOR, CREATE_CTOR], 1, 2, 2, 2);
+pub fn check_auth_one_default_rule_accepts() {
+    let sc = scenario_shaped(&shape(0, 2), [CALL, CALL], 1, 2, 2, 2);
     let o = converse(&sc);
-    witness!(sc.rules[NR - 1].kind == 2 && o.chosen[0] == (NR - 1) as u32, "accepted_by_default_rule");
-    witness!(sc.rules[NR - 1].kind == 1 && o.chosen[0] == (NR - 1) as u32, "accepted_by_own_type_rule");
+    witness!(o.chosen[0] == (NR - 1) as u32, "accepted_by_default_rule");
+}
+/// thorough: converse for an own-type rule and a contract creation with constructor
+#[kani::proof]
+#[kani::unwind(98)]
+pub fn check_auth_one_own_rule_accepts() {
+    let sc = scenario_shaped(&shape(0, 1), [CREATE_CTOR, CREATE_CTOR], 1, 2, 2, 2);
+    let o = converse(&sc);
+    witness!(o.chosen[0] == (NR - 1) as u32, "accepted_by_own_type_rule");
 }
 /// thorough: the whole check over two listed rules (own type + Default), <= 1 policy each
 #[kani::proof]
